@@ -485,7 +485,7 @@ fn check_bytes(c: &BytesCase) -> Outcome {
     decode_outcome(&pool[i].0, &b, !c.muts.is_empty())
 }
 
-fn decode_outcome(origin: &str, b: &[u8], mutated: bool) -> Outcome {
+pub fn decode_outcome(origin: &str, b: &[u8], mutated: bool) -> Outcome {
     let r = guarded(|| {
         let mut types = wac_types::Types::default();
         wac_types::Package::from_bytes("test:pkg", None, b.to_vec(), &mut types).map(|p| (p.name().to_string(), types))
